@@ -25,7 +25,10 @@ F_rev(in)      == IF Has(in, "revvec") THEN RevClass(in.revvec) ELSE in.rev     
 
 PluginSituations == {"none", "notInstalled", "tooLow", "noCap", "TI", "REV", "both",
                      \* growth: further ways a demanded plugin can be unusable
-                     "nilManager", "metaError", "badSemver"}
+                     "nilManager", "metaError", "badSemver",
+                     \* growth: malformed plugin attributes in the signature (present but not critical / not a string /
+                     \* blank; minimum version blank, not SemVer or not critical)
+                     "attrNonCritical", "attrNonString", "attrBlank", "minVerInvalid", "minVerBlank", "minVerNonCritical"}
 Caps(in) == CASE in.plugin = "TI"   -> {"TI"}
               [] in.plugin = "REV"  -> {"REV"}
               [] in.plugin = "both" -> {"TI", "REV"}
